@@ -137,6 +137,32 @@ def check_case(run, fbp, keys, vals, interp_defs, kind, g, cards):
             if alt != dflt and not (alt[0] == "raised" and dflt[0] == "raised"):
                 run.fail({"subcheck": "subst:entry-point-differs", "entry": label}, case,
                          "%s gives %r, env.substituter.substitute %r\n formula=%s" % (label, alt, dflt, show(b0, 300)))
+        if kind in ("terms", "interp-projection") and g.pct(30):
+            # an environment configured for the most specific strategy (Environment.SubstituterClass)
+            class MSEnvironment(Environment):
+                SubstituterClass = MSSubstituter
+            env2 = MSEnvironment()
+            with env2:
+                try:
+                    f2 = pys.build(env2, fbp)
+                    subs2 = {pys.build(env2, k): pys.build(env2, v) for k, v in zip(keys, vals)}
+                    fis2 = {pys.build(env2, sym(fn, ft)): FunctionInterpretation([pys.build(env2, sym(*p_)) for p_ in params_], pys.build(env2, body_))
+                            for (fn, ft, params_, body_) in interp_defs} or None
+                    outs = []
+                    for call in (lambda: env2.substituter.substitute(f2, subs2, interpretations=fis2),
+                                 lambda: f2.substitute(subs2 or None, interpretations=fis2),
+                                 lambda: MSSubstituter(env2).substitute(f2, subs2, interpretations=fis2)):
+                        try:
+                            outs.append(("ok", call()))
+                        except Exception as e:
+                            outs.append(("raised", type(e).__name__))
+                    run.cls("environment-configured-for-mss")
+                    if any(o != outs[2] for o in outs[:2]) and not all(o[0] == "raised" for o in outs):
+                        run.fail({"subcheck": "subst:configured-class-ignored"}, case,
+                                 "Environment with SubstituterClass = MSSubstituter: env.substituter / FNode.substitute give %r / %r, "
+                                 "MSSubstituter gives %r" % (outs[0], outs[1], outs[2]))
+                except Exception:
+                    run.discard("rejected-by-constructor")
         if dflt != results[0][1] and not (dflt[0] == "raised" and results[0][1][0] == "raised"):
             run.fail({"subcheck": "subst:default-is-not-mgs"}, case, "env.substituter gives %r, MGSubstituter %r" % (dflt, results[0][1]))
         for mode, got, ref in results:
@@ -156,7 +182,7 @@ def check_case(run, fbp, keys, vals, interp_defs, kind, g, cards):
                              mode, show(b0), {show(k): show(v) for k, v in zip(keys, vals)},
                              show(pys.decode(got[1])), show(pys.decode(ref[1]))))
         # ---- semantic part
-        if kind not in ("symbols", "interp"):
+        if kind not in ("symbols", "interp", "interp-projection"):
             return
         syms = set(all_symbols(b0))
         for v in vals:
@@ -227,6 +253,26 @@ def gen_case(rnd):
             fb_ = atom
         f = ("AND", (), (atom, fb_)) if g.pct(50) else ("OR", (), (fb_, ("NOT", (), (atom,))))
     keys, vals, idefs = [], [], []
+    if kind == "interp" and g.pct(20):
+        # an interpretation that is a projection (its body is one formal parameter) applied to bare symbols, together
+        # with a chain of symbol keys a -> x1 -> x2: the application collapses onto x1, which is the result (a value
+        # put in by the substitution is not looked up again, under either strategy)
+        T = g.choice([INT, REAL, BV(2), BOOL, INT])
+        ft_ = ("Fun", T, (T, T))
+        a_, b_ = sym("pj_a", T), sym("pj_b", T)
+        ap = ("FUNCTION", ("fpj_%s" % B.tystr(T), ft_), (a_, b_) if g.pct(50) else (b_, a_))
+        atom = ap if T == BOOL else ("EQUALS", (), (ap, g.term(T, 1)))
+        try:
+            fb_ = f if reftype(f) == BOOL else ("EQUALS", (), (f, f))
+        except IllTyped:
+            fb_ = atom
+        f = ("AND", (), (atom, fb_))
+        params = [("fp0_%s" % B.tystr(T), T), ("fp1_%s" % B.tystr(T), T)]
+        idefs.append((ap[1][0], ft_, params, sym(*g.choice(params))))
+        x1, x2 = sym("pj_x1", T), sym("pj_x2", T)
+        keys += [a_, x1, b_]
+        vals += [x1, x2, g.choice([x2, a_, x1])]
+        return f, tuple(keys), tuple(vals), idefs, "interp-projection", g, cards
     allsyms = sorted((s for s in all_symbols(f) if not is_fun(s[1])), key=repr)
     if kind in ("symbols", "capture"):
         gr = G(cfg=RCFG if kind == "symbols" else RCFG_CAPTURE, rnd=rnd)
